@@ -1,5 +1,131 @@
-(* C05 -- placeholder while the composer model is being validated; theorems follow *)
-From Httoop Require Import Model.Composer.
-Theorem C05_placeholder : EMPTY_SRC = EMPTY_SRC.
-Proof. exact eq_refl. Qed.
-Print Assumptions C05_placeholder.
+(* C05 -- composed output is a well-framed message whose framing headers tell the truth; composing is repeatable
+   and non-destructive.  Final statements only, each closed by [exact] and followed by Print Assumptions.
+
+   Models: Model/Composer.v (composer, tied to /repo by T1/T2/T3) and Model/Http1Reader.v (an independent reading
+   of RFC 7230 section 3, used only to state the property).  Every theorem holds for EVERY instantiation of the
+   callees [C] (zlib/gzip coders, Element.split of list-valued fields, codec lookup), for both variants [vc] of the
+   content-coding loop (per piece = pinned tree, whole content = repair D42) and all messages of the model.
+   [lsplit_clean C] says that splitting a list-valued field value that is free of CR/LF yields pieces free of CR/LF. *)
+From Httoop Require Import Model.Composer Model.Http1Reader Proofs.ComposerNum Proofs.ComposerHdrs Proofs.ComposerBody
+  Proofs.ComposerFraming Proofs.ComposerRepeat.
+Local Open Scope N_scope.
+
+(* T1 obligations about the regenerated tables *)
+Theorem C05_block_size_positive : exists m, N.to_nat MAX_CHUNK_SIZE = S m.
+Proof. exact max_chunk_pos. Qed.
+Print Assumptions C05_block_size_positive.
+Theorem C05_bodiless_statuses_are_dropped : forall code, code_ok code = true -> rfc_bodiless_status code = true -> no_body_status code = true.
+Proof. exact bodiless_dropped. Qed.
+Print Assumptions C05_bodiless_statuses_are_dropped.
+Theorem C05_status_tables : forall code ks, assoc_N code STATUS_REMOVE = Some ks ->
+  mem_bytes H_TE ks = false /\ (mem_bytes H_CL ks = true -> rfc_bodiless_status code = true).
+Proof. exact status_remove_facts. Qed.
+Print Assumptions C05_status_tables.
+
+(* number printing: the independent reader's 1*DIGIT / 1*HEXDIG invert b'%d' / b'%x' for every number *)
+Theorem C05_decimal_roundtrip : forall n, rd_dec (dec_print n) = Some n.
+Proof. exact rd_dec_print. Qed.
+Print Assumptions C05_decimal_roundtrip.
+Theorem C05_hex_roundtrip : forall n, rd_hex (hex_print n) = Some n.
+Proof. exact rd_hex_print. Qed.
+Print Assumptions C05_hex_roundtrip.
+
+(* the content is cut into blocks without loss, and an iteration leaves every kind of source yielding the same pieces *)
+Theorem C05_blocks_concat : forall c, concat_bytes (blocks c) = c.
+Proof. exact blocks_concat. Qed.
+Print Assumptions C05_blocks_concat.
+Theorem C05_iteration_nondestructive : forall s, src_ok s = true ->
+  src_pieces (src_after s) = src_pieces s /\ src_after (src_after s) = src_after s /\ src_ok (src_after s) = true.
+Proof. exact (fun s H => conj (src_after_pieces s H) (conj (src_after_after s) (src_after_ok s))). Qed.
+Print Assumptions C05_iteration_nondestructive.
+Theorem C05_len_is_content_length : forall s, src_len s = (blen (src_content s), src_after s).
+Proof. exact src_len_spec. Qed.
+Print Assumptions C05_len_is_content_length.
+
+(* ---- clause 1, requests: FULL.  The octets composed for a prepared request are exactly one RFC 7230 message: the
+   request line, fields, then Content-Length = number of body octets, or a complete chunked body, or (empty content)
+   no body; the framed payload is the coded content (the content itself without coding; nothing for GET/HEAD/SEARCH).
+   [req_ok] = API preconditions (token method, visible target, one-digit version, token field names, values free of
+   CR/LF) and the exclusion of the known findings D43 (coding without chunked framing) and D46 (caller-set Content-Length). *)
+Theorem C05_request_framing : forall (C : ccallees) (vc : variant) (now : bytes) (q q' : request),
+  lsplit_clean C -> req_ok q = true -> rd_no_crlf now = true -> q_prepare now q = Some q' ->
+  exists fr, framed_as true false (fst (q_compose C vc q'))
+    (q_method q ++ SP :: q_target q ++ SP :: StartLine.proto_compose (q_version q)) fr (q_content C vc q).
+Proof. exact (fun C vc now q q' HC => request_framing C HC vc now q q'). Qed.
+Print Assumptions C05_request_framing.
+Theorem C05_framed_is_wellformed : forall is_req bodiless d start fr pl, framed_as is_req bodiless d start fr pl -> wf_http1 is_req bodiless d pl.
+Proof. exact framed_wf. Qed.
+Print Assumptions C05_framed_is_wellformed.
+Example C05_req_ok_nonvacuous :
+  req_ok {| q_method := X "504f5354"; q_target := X "2f61253230623f6b3d76"; q_host := Some (X "6578616d706c652e636f6d"); q_version := (1, 1);
+            q_hdrs := [(X "582d41", X "61e4"); (H_TE, TE_CHUNKED); (X "5365742d436f6f6b6965", X "613d622c20633d64")];
+            q_body := {| b_src := SGen [X "6162"; []; X "6364"] []; b_chunked := true; b_codec := Some 1; b_ctype := X "746578742f706c61696e"; b_trailer := [(X "582d54", X "7476")] |} |} = true.
+Proof. vm_compute. reflexivity. Qed.
+
+(* ---- clause 1, responses.  [bodiless] = RFC 7230 3.3.3 rule 1 (response to HEAD, 1xx, 204, 304): no octet may follow
+   the header section.  FULL for the repaired behaviour (D29); for the pinned tree the bodiless x chunked case is excluded
+   (partial) and refuted by a witness. *)
+Theorem C05_response_framing : forall (C : ccallees) (vc : variant) (now : bytes) (r r' : response),
+  lsplit_clean C -> resp_ok r = true -> rd_no_crlf now = true -> r_prepare C Repaired now r = Some r' ->
+  let bodiless := r_bodiless (r_code r) (r_rmethod r) in
+  exists fr, framed_as false bodiless (fst (r_compose C vc r'))
+    (StartLine.proto_compose (r_version r) ++ SP :: StartLine.print_dec (r_code r) ++ SP :: r_reason r) fr
+    (if bodiless then [] else concat_bytes (encode_pieces C vc (b_codec (r_body r')) (r_sent_pieces r))) /\
+    (fr <> FChunked -> bodiless = false -> b_codec (r_body r') = None).
+Proof. intros C vc now r r' HC Hok Hn Hp. exact (response_framing C HC Repaired vc now r r' Hok Hn Hp (or_introl eq_refl)). Qed.
+Print Assumptions C05_response_framing.
+Theorem C05_response_framing_asfound_partial : forall (C : ccallees) (vc : variant) (now : bytes) (r r' : response),
+  lsplit_clean C -> resp_ok r = true -> rd_no_crlf now = true -> r_prepare C AsFound now r = Some r' ->
+  let bodiless := r_bodiless (r_code r) (r_rmethod r) in
+  (bodiless = false \/ hmem H_TE (r_hdrs r') = false) ->
+  exists fr, framed_as false bodiless (fst (r_compose C vc r'))
+    (StartLine.proto_compose (r_version r) ++ SP :: StartLine.print_dec (r_code r) ++ SP :: r_reason r) fr
+    (if bodiless then [] else concat_bytes (encode_pieces C vc (b_codec (r_body r')) (r_sent_pieces r))) /\
+    (fr <> FChunked -> bodiless = false -> b_codec (r_body r') = None).
+Proof. intros C vc now r r' HC Hok Hn Hp bodiless Hv. exact (response_framing C HC AsFound vc now r r' Hok Hn Hp (or_intror Hv)). Qed.
+Print Assumptions C05_response_framing_asfound_partial.
+Theorem C05_head_chunked_refuted :
+  resp_ok D29_response = true /\
+  exists r', r_prepare C_plain AsFound D29_now D29_response = Some r' /\
+             forall pl, ~ wf_http1 false true (fst (r_compose C_plain AsFound r')) pl.
+Proof. exact head_chunked_refuted. Qed.
+Print Assumptions C05_head_chunked_refuted.
+Example C05_resp_ok_nonvacuous :
+  resp_ok {| r_version := (1, 0); r_code := 404; r_reason := X "4e6f7420466f756e64"; r_rmethod := X "474554";
+             r_hdrs := [(H_CE, X "677a6970"); (X "45546167", X "2261bf22")];
+             r_body := {| b_src := SFile (X "68656c6c6f") 3; b_chunked := false; b_codec := None; b_ctype := X "746578742f706c61696e"; b_trailer := [] |} |} = true.
+Proof. vm_compute. reflexivity. Qed.
+(* the framing found by the reader is the one the header fields announce, and never both *)
+Theorem C05_never_both : forall h fr, hframing h fr ->
+  (fr = FChunked -> hget H_CL h = None) /\ (forall n, fr = FLength n -> hget H_TE h = None).
+Proof. exact hframing_never_both. Qed.
+Print Assumptions C05_never_both.
+
+(* ---- clause 2: repeatable and non-destructive ---- *)
+(* composing only replaces the body source by its normal form (a generator by the list of what it produced, positions
+   restored), and composing the result again gives the same octets: for every constructor of the body source *)
+Theorem C05_compose_nondestructive : forall (C : ccallees) (vc : variant) (b : body), src_ok (b_src b) = true ->
+  snd (body_iter C vc b) = settle_body b /\ fst (body_iter C vc (settle_body b)) = fst (body_iter C vc b) /\
+  settle_body (settle_body b) = settle_body b.
+Proof. exact (fun C vc b H => conj (body_iter_settle C vc b) (conj (body_iter_again C vc b H) (settle_body_idem b))). Qed.
+Print Assumptions C05_compose_nondestructive.
+(* requests, FULL: prepare is idempotent (state equality, for one clock value) ... *)
+Theorem C05_request_prepare_idempotent : forall now q q1, te_simple (q_hdrs q) = true -> src_ok (b_src (q_body q)) = true ->
+  q_prepare now q = Some q1 -> q_prepare now q1 = Some q1.
+Proof. exact q_prepare_idem. Qed.
+Print Assumptions C05_request_prepare_idempotent.
+(* ... and after the first prepare EVERY sequence of prepare / compose operations succeeds and every compose in it
+   emits the same octets (induction on the operation list) *)
+Theorem C05_request_repeatable : forall (C : ccallees) (vc : variant) (now : bytes) (q q1 : request),
+  te_simple (q_hdrs q) = true -> src_ok (b_src (q_body q)) = true -> q_prepare now q = Some q1 ->
+  forall ops, exists outs qf, q_run C vc now q1 ops = Some (outs, qf) /\
+    Forall (fun o => o = fst (q_compose C vc q1)) outs /\ (qf = q1 \/ qf = settle_q q1).
+Proof. intros C vc now q q1 Ht Hs Hp ops. exact (q_repeatable C vc now q q1 Ht Hs Hp ops q1 (or_introl eq_refl)). Qed.
+Print Assumptions C05_request_repeatable.
+(* the Date value is the only place where the clock enters a prepared request: it is set only when absent *)
+(* responses: composing any number of times gives the same octets (FULL for compose-only sequences) *)
+Theorem C05_response_compose_repeatable : forall (C : ccallees) (vc : variant) (r : response), src_ok (b_src (r_body r)) = true ->
+  forall k, Forall (fun o => o = fst (r_compose C vc r)) (fst (r_compose_n C vc k r)) /\
+            (snd (r_compose_n C vc k r) = r \/ snd (r_compose_n C vc k r) = settle_r r).
+Proof. exact r_compose_repeatable. Qed.
+Print Assumptions C05_response_compose_repeatable.
